@@ -197,14 +197,8 @@ class MatrixExpression:
         return _matrix_binary_op(self, other, "/")
 
     def __rtruediv__(self, other: float | int) -> MatrixExpression:
-        """Right scalar division: other / self."""
-        rows, cols = self.shape
-        const = Constant(other)
-        result_exprs = [
-            [BinaryOp(const, self._expressions[i][j], "/") for j in range(cols)]
-            for i in range(rows)
-        ]
-        return MatrixExpression(result_exprs)
+        """Right division: other / self (element-wise for arrays)."""
+        return _matrix_binary_op(self, other, "/", reverse=True)
 
     def __neg__(self) -> MatrixExpression:
         """Negate all elements."""
@@ -270,6 +264,7 @@ def _matrix_binary_op(
     left: MatrixVariable | MatrixExpression,
     right: MatrixVariable | MatrixExpression | NDArray | float | int,
     op: Literal["+", "-", "*", "/", "**"],
+    reverse: bool = False,
 ) -> MatrixExpression:
     """Perform element-wise binary operation between matrices.
 
@@ -333,7 +328,7 @@ def _matrix_binary_op(
     elif isinstance(right, (list, tuple)):
         # Convert list to numpy array and recurse
         arr = np.asarray(right)
-        return _matrix_binary_op(left, arr, op)
+        return _matrix_binary_op(left, arr, op, reverse)
 
     else:
         raise InvalidOperationError(
@@ -341,11 +336,17 @@ def _matrix_binary_op(
             operand_types=("MatrixExpression", type(right).__name__),
         )
 
-    # Create element-wise operations
-    result_exprs = [
-        [BinaryOp(left_exprs[i][j], right_exprs[i][j], op) for j in range(cols)]
-        for i in range(rows)
-    ]
+    # Create element-wise operations (reverse: right op left, for reflected operators)
+    if reverse:
+        result_exprs = [
+            [BinaryOp(right_exprs[i][j], left_exprs[i][j], op) for j in range(cols)]
+            for i in range(rows)
+        ]
+    else:
+        result_exprs = [
+            [BinaryOp(left_exprs[i][j], right_exprs[i][j], op) for j in range(cols)]
+            for i in range(rows)
+        ]
 
     return MatrixExpression(result_exprs)
 
@@ -982,14 +983,8 @@ class MatrixVariable:
         return _matrix_binary_op(self, other, "/")
 
     def __rtruediv__(self, other: float | int) -> MatrixExpression:
-        """Right division: scalar / X."""
-        rows, cols = self.shape
-        const = Constant(other)
-        result_exprs = [
-            [BinaryOp(const, self._variables[i][j], "/") for j in range(cols)]
-            for i in range(rows)
-        ]
-        return MatrixExpression(result_exprs)
+        """Right division: scalar / X or array / X (element-wise)."""
+        return _matrix_binary_op(self, other, "/", reverse=True)
 
     def __neg__(self) -> MatrixExpression:
         """Negate all elements: -X."""
